@@ -152,6 +152,14 @@ fn c16(toks: &[&str]) -> String {
         return format!("FAIL {e}");
     }
     let np = nat.path();
+    // the unadjusted path of a single linear segment is its control points, vertex for vertex (repeated ones included: the
+    // "ends in two identical points" exception of the property is about exactly these)
+    let single_linear = req.pts.len() >= 2
+        && req.pts[0].path_type.map_or(true, |t| t.kind == SplineType::Linear)
+        && req.pts[1..].iter().all(|p| p.path_type.is_none());
+    if single_linear && !(np.len() == req.pts.len() && np.iter().zip(&req.pts).all(|(a, b)| same_pos(*a, b.pos))) {
+        return format!("FAIL the unadjusted path of a linear segment is not its control points: {} vertices for {} control points", np.len(), req.pts.len());
+    }
     let scale = scale_of(np, &req.pts);
     // without a requested length the distance is the polyline's own length ...
     if !np.is_empty() && nat.lengths().len() != np.len() {
@@ -610,6 +618,18 @@ fn c18(toks: &[&str]) -> String {
             }
             "x" => {
                 sp.clear_curve();
+                (true, false)
+            }
+            "k" | "K" => {
+                // replacing the whole path (Clone::clone_from) is one more way of changing points and length
+                let (i, l) = idx_len(arg);
+                cur_pts = req.pool.get(i).cloned().unwrap_or_default();
+                cur_len = l;
+                let mut src = SliderPath::new(req.mode, cur_pts.clone(), cur_len);
+                if kind == "K" {
+                    let _ = src.curve();
+                }
+                sp.clone_from(&src);
                 (true, false)
             }
             _ => return "SKIP bad-op".into(),
